@@ -70,7 +70,10 @@ func c09setup(tier string, seed uint64) int {
 	c09.scen = nil
 	reps := map[string]int{"quick": 1, "thorough": 25}[tier]
 	for rep := 0; rep < reps; rep++ {
-		for _, cfg := range []string{"no-rule", "cn-rule", "cn-rule+password"} {
+		// ~ca-rotated: the server was first started with ANOTHER client CA, stopped, given the CA file and started
+		// again (what it trusts is what is configured now); ~app-tls-config: the application hands the server a
+		// ready tls.Config that lets clients connect without a certificate (the common-name rule is the gate)
+		for _, cfg := range []string{"no-rule", "cn-rule", "cn-rule+password", "no-rule~ca-rotated", "cn-rule~ca-rotated", "cn-rule~app-tls-config"} {
 			for _, cl := range c09clients {
 				for _, pos := range []string{"before", "between", "after"} {
 					c09.scen = append(c09.scen, c09scen{cfg, cl, pos, rep})
@@ -85,6 +88,9 @@ func c09setup(tier string, seed uint64) int {
 // expectedServed: handshake completed with a chain to the CA and (no rule or leaf CN == name).
 func c09expected(cfg, client string) bool {
 	client = strings.TrimSuffix(client, "+resume")
+	if i := strings.Index(cfg, "~"); i >= 0 {
+		cfg = cfg[:i]
+	}
 	if !pki.ChainsToCA(client) {
 		return false
 	}
@@ -102,6 +108,10 @@ type c09server struct {
 }
 
 func c09start(cfg string) (*c09server, error) {
+	variant := ""
+	if i := strings.Index(cfg, "~"); i >= 0 {
+		cfg, variant = cfg[:i], cfg[i+1:]
+	}
 	p := c09pki()
 	if p == nil {
 		return nil, fmt.Errorf("pki unavailable")
@@ -120,6 +130,18 @@ func c09start(cfg string) (*c09server, error) {
 		}
 		s.srv.SetTLSKeyFile(p.KeyFile)
 		s.srv.SetTLSCaCertFile(p.CAFile)
+		switch variant {
+		case "ca-rotated":
+			s.srv.SetTLSCaCertFile(p.ForeignCAFile)
+		case "app-tls-config":
+			pool := x509.NewCertPool()
+			pool.AddCert(p.CA.Cert)
+			pair, err := tls.X509KeyPair(p.Server.CertPEM(), p.Server.KeyPEM())
+			if err != nil {
+				return nil, err
+			}
+			s.srv.SetTLSConfig(&tls.Config{MinVersion: tls.VersionTLS12, Certificates: []tls.Certificate{pair}, ClientCAs: pool, ClientAuth: tls.VerifyClientCertIfGiven})
+		}
 		if cfg != "no-rule" {
 			s.srv.AddAuthenticator(auth.NewCertificateAuthenticatorWith(auth.WithCommonName(c09name)))
 		}
@@ -128,6 +150,15 @@ func c09start(cfg string) (*c09server, error) {
 			s.password = true
 		}
 		if err := s.srv.Start(); err == nil {
+			if variant == "ca-rotated" {
+				if err := s.srv.Stop(); err != nil {
+					return nil, err
+				}
+				s.srv.SetTLSCaCertFile(p.CAFile)
+				if err := s.srv.Start(); err != nil {
+					return nil, err
+				}
+			}
 			return s, nil
 		}
 	}
@@ -339,6 +370,9 @@ func c09run(idx int) run.Result {
 			}
 			if strings.Contains(why, "refused") || !tlsLoopExists || !tlsLoopAccepting || dumpN == 0 {
 				res.Violate(fmt.Sprintf(sig, "containment-tls"), "a failed, stalled or abandoned handshake affects only that client: the TLS listener keeps accepting and serving other clients", fmt.Sprintf("%s: %s\nserver goroutines:\n%s", stage, why, clipS(dump, 1800)), desc)
+			} else if strings.Contains(why, "remote error: tls:") {
+				// the server itself refused the certificate with a TLS alert: no timing involved
+				res.Violate(fmt.Sprintf(sig, "gate-closed-good-client"), "a client with a certificate chaining to the configured CA (and the right name) is served", fmt.Sprintf("%s: %s", stage, why), desc)
 			} else {
 				res.Inconclusive = "valid client not served but no structural witness: " + why
 			}
@@ -466,7 +500,7 @@ func init() {
 	run.Register(&run.Prop{
 		ID: "C09", Level: "fault_enumeration",
 		Rule: func(tier string) string {
-			return "the scenario space {no rule, common-name rule, rule + password} x {no certificate, self-signed, foreign CA, expired, right CA wrong name, right name only on an intermediate, right CA right name, each of these seven once more as a client with a TLS session cache connecting three times (later handshakes resume the first session), plain-text bytes on the TLS port, abort after ClientHello, stall, garbage, 48 and 300 simultaneous stalled connections, 48 simultaneous garbage connections} x position relative to two well-behaved client pairs {before, between, after} = 189 scenarios is enumerated completely (thorough: 5 repetitions), each against a fresh server configured through the file-based TLS path with a PKI minted at run time, on real loopback sockets. Oracle: (gate) a recording handler keyed by a per-client token: the client is served iff its handshake completes with a chain to the CA and (no rule or its LEAF common name matches); (containment) after the faulty client - and while a stalled one is still connected - a valid TLS client and a plain client must each dial, handshake and be answered; 'valid client not served' is a violation only with a structural witness (dial refused, or the goroutine profile shows the accept loop inside Handshake). Plus an in-process sweep of the certificate rule through hook H1 with fabricated connection states (0..3 peer certificates, the name at each chain position)"
+			return "the scenario space {no rule, common-name rule, rule + password, no rule / rule after the client CA was replaced across a restart, rule with an application-supplied tls.Config that makes client certificates optional} x {no certificate, self-signed, foreign CA, expired, right CA wrong name, right name only on an intermediate, right CA right name, each of these seven once more as a client with a TLS session cache connecting three times (later handshakes resume the first session), plain-text bytes on the TLS port, abort after ClientHello, stall, garbage, 48 and 300 simultaneous stalled connections, 48 simultaneous garbage connections} x position relative to two well-behaved client pairs {before, between, after} = 378 scenarios is enumerated completely (thorough: 5 repetitions), each against a fresh server configured through the file-based TLS path with a PKI minted at run time, on real loopback sockets. Oracle: (gate) a recording handler keyed by a per-client token: the client is served iff its handshake completes with a chain to the CA and (no rule or its LEAF common name matches); (containment) after the faulty client - and while a stalled one is still connected - a valid TLS client and a plain client must each dial, handshake and be answered; 'valid client not served' is a violation only with a structural witness (dial refused, or the goroutine profile shows the accept loop inside Handshake). Plus an in-process sweep of the certificate rule through hook H1 with fabricated connection states (0..3 peer certificates, the name at each chain position)"
 		},
 		Exhaustive:    func(string) bool { return true },
 		Assumptions:   []string{"handshake faults are produced by a real client over loopback; faults needing control of TCP segmentation inside the handshake are not produced"},
